@@ -251,7 +251,22 @@ def run(model: RepoModel, rep, tier: str):
                             if isinstance(t, (ast.Subscript, ast.Attribute)) and any(isinstance(x, ast.Name) and x.id == S for x in ast.walk(t)):
                                 touched.append(n)
                 ok_ctx = (not touched, touched[0] if touched else sv)
-    if ok_ctx is None:
+    # reading the summary already stored under the same context id, in the function that generates and saves the new one, has one
+    # purpose only: merging the two -- and the context id identifies the innermost call edge, not the call path
+    readback = None
+    for fn_ in gs.all_funcs():
+        if any(isinstance(c, ast.Call) and isinstance(c.func, ast.Attribute) and c.func.attr == "generate_and_save_analysis_summary" for c in walk_no_nested(fn_.node)):
+            saves_ = [c for c in walk_no_nested(fn_.node) if isinstance(c, ast.Call) and isinstance(c.func, ast.Attribute) and c.func.attr == "save_method_summary_instance" and c.args]
+            for c in walk_no_nested(fn_.node):
+                if isinstance(c, ast.Call) and isinstance(c.func, ast.Attribute) and c.func.attr == "get_method_summary_instance" and c.args \
+                        and any(norm(c.args[0]) == norm(s_.args[0]) for s_ in saves_):
+                    readback = c
+    if readback is not None:
+        rep.violation("C09.R3", key, gs.rel, readback.lineno,
+                      f"`{norm(readback)[:80]}` reads the summary stored under the context id that the new summary is about to be saved under: the two are "
+                      f"merged, but the id is the hash of (caller, call statement, callee) -- the innermost call edge -- so the record of one call path "
+                      f"leaks into the next: with f(u) = h(u), r2 = f(200) after f(100) becomes {{100, 200}}")
+    elif ok_ctx is None:
         rep.unknown("C09.R3", key, gs.rel, 0, "generation and saving of the summary instance not recognised")
     elif ok_ctx[0]:
         rep.holds("C09.R3", key, gs.rel, ok_ctx[1].lineno, "summary = generate_and_save_analysis_summary(...); saved unmodified under the context id")
